@@ -616,7 +616,7 @@ def ll_oracle(orig, loaded, rs, nrows=24):
     from deeprob.spn.algorithms.inference import log_likelihood
     nodes = topo(orig)
     tol = 2e-5
-    doms = {}
+    doms = {}; gauss = []
     for n in nodes:
         if isinstance(n, Sum):
             w = [float(x) for x in n.weights if float(x) > 0]
@@ -628,7 +628,12 @@ def ll_oracle(orig, loaded, rs, nrows=24):
             if info is None:
                 return "skipped", "unfitted leaf or leaf on a discontinuity"
             (kind, vals), s = info
-            tol += s
+            if type(n).__name__ == "Gaussian":
+                # sensitivity depends on how far the evaluated point is from THIS leaf's mean (another leaf over the same
+                # variable may contribute test points thousands of standard deviations away): bounded per row below
+                gauss.append((int(n.scope[0]), float(n.mean), float(n.stddev)))
+            else:
+                tol += s
             for v in n.scope:
                 doms.setdefault(int(v), []).extend(vals)
     if tol > 2e-2:
@@ -647,14 +652,22 @@ def ll_oracle(orig, loaded, rs, nrows=24):
     except Exception as e:
         return "fail", dict(what="loaded circuit cannot be evaluated", error=f"{type(e).__name__}: {e}")
     fin = np.isfinite(a) & (a > -1e29)
+    # first-order effect of the 8-decimal rounding of Gaussian parameters at the evaluated points
+    gtol = np.zeros(len(a))
+    for v, m, sd in gauss:
+        z = np.abs(np.nan_to_num(X[:, v].astype(np.float64) - m, nan=0.0)) / sd
+        gtol += z * (D8 + 6e-8 * abs(m)) / sd + (z * z + 1.0) * (D8 + 6e-8 * sd) / sd
+    skip = gtol >= 2e-2         # ill-conditioned rows are not compared
+    fin &= ~skip
     # float32 evaluation noise: relative 1e-5 of the magnitude
     bad = np.zeros(len(a), bool)
-    bad[fin] = np.abs(a[fin] - b[fin]) > 3 * tol + 2e-5 * np.abs(a[fin])
+    bad[fin] = np.abs(a[fin] - b[fin]) > 3 * (tol + gtol[fin]) + 2e-5 * np.abs(a[fin])
     bad[~fin] = ~((np.isnan(a[~fin]) & np.isnan(b[~fin])) | (a[~fin] == b[~fin]) | ((a[~fin] < -1e29) & (b[~fin] < -1e29)))
+    bad[skip] = False
     if bad.any():
         i = int(np.argmax(bad))
         return "fail", dict(what="log-likelihood of the loaded circuit differs from the original's", row=X[i].tolist(),
-                            ll_original=float(a[i]), ll_loaded=float(b[i]), tolerance=float(3 * tol + 2e-5 * abs(a[i])))
+                            ll_original=float(a[i]), ll_loaded=float(b[i]), tolerance=float(3 * (tol + gtol[i]) + 2e-5 * abs(a[i])))
     return "ok", int(fin.sum())
 
 
